@@ -344,6 +344,8 @@ func init() {
 			{"rc-loaded", "a node a Trie method loads from the store while restructuring is either handed on / embedded / returned as a whole or released with removeRef on every path that returns normally (a replaced node is never left counted)", ruleRCLoaded},
 			{"trie-copy-shares", "a value copy of a Trie shares the node objects and the pending-count map with the original: it is not mutated through (PutBatch, Put, Delete, Flush, Collapse) - a block computed on such a copy and dropped would leave the installed trie restructured and re-counted", ruleTrieCopyShares},
 			{"record-layout-agreement", "every trie mode that state synchronisation computes from KeepOnlyLatestState / RemoveUntraceableBlocks has the reference-counting bit of the state-root module's mode for all four combinations: the synchronised records are read by that module after the jump", ruleRecordLayoutAgreement},
+			{"rc-curr-released", "every structural function of the trie that receives a counted leaf, branch or extension releases it (removeRef), keeps it whole or hands it on whole on every normally returning path", ruleRCCurrReleased},
+			{"multimap-merge", "the paths of the children of a restored node are accumulated over all paths of the node (appended, never replaced): descendants of a subtree that hangs off the trie twice are restored and counted once per path", func(c *Ctx) { ruleMultimapMerge(c, "pkg/core/statesync", "pkg/core/mpt") }},
 			{"rc-writers", "node records reach the store only through the tabled count-folding writers; the GC pass deletes a record only if it is inactive and not newer than the GC height", ruleRCWriters},
 			{"working-trie", "the state-root module's working trie (the one flushed to the database) is opened on every (re)initialisation, jump and reset with the module's unmasked mode over the module's own store, and a flush stamps nodes with the index of the block whose root record is written", ruleWorkingTrie},
 		},
